@@ -223,6 +223,7 @@ def as_str(v):
 
 def install(ctx):
     M = ctx.models
+    install_fmt(ctx)
 
     @M.reg('str::len', 'String::len')
     def str_len(ip, pc, args, dt):
@@ -299,7 +300,7 @@ def install(ctx):
         ws = lambda b: z3.Or(b == 32, z3.And(b >= 9, b <= 13))
         return Ref(Loc(Cell(s.trim_matches_byte(ws), 'trim')))
 
-    @M.reg('<ToString>::to_string', '<str as ToOwned>::to_owned', 'String::from', 'str::to_string',
+    @M.reg('<str as ToOwned>::to_owned', 'String::from', 'str::to_string',
            'str::to_owned', '<String as From>::from', '<Box as From>::from', 'String::into_boxed_str',
            'str::into', 'String::as_str', 'String::clone')
     def to_string(ip, pc, args, dt):
@@ -333,3 +334,147 @@ def install(ctx):
             val = z3.If(inr, val * 10 + d, val)
         okc = z3.And(ln > start, alld, val < (1 << 64))
         return Enum('Result', z3.If(okc, 0, 1), {0: (S(val, 'u64'),), 1: (Opaque('ParseIntError'),)})
+
+
+# ====================================================================== formatting (Display / to_string)
+
+class FmtArg(Model):
+    def __init__(self, value, kind):
+        self.value = value
+        self.kind = kind
+
+
+class FmtArgs(Model):
+    def __init__(self, parts):
+        self.parts = parts       # list of Str / StrTok / ('display', value)
+
+
+class FormatterM(Model):
+    def __init__(self):
+        self.parts = []
+
+
+def concat_strs(parts):
+    """concatenation of byte-level strings as one Str (ite chains, no forking)"""
+    parts = [p.normalised() for p in parts]
+    if all(p.concrete() is not None for p in parts):
+        data = b''.join(p.concrete() for p in parts)
+        return Str(list(data), 0, len(data))
+    cap = sum(len(p.b) for p in parts)
+    offs = []
+    acc = z3.IntVal(0)
+    for p in parts:
+        offs.append(acc)
+        acc = z3.simplify(acc + p.len_t())
+    out = []
+    for j in range(cap):
+        v = z3.IntVal(0)
+        for p, off in zip(reversed(parts), reversed(offs)):
+            v = z3.If(z3.And(off <= j, off + p.len_t() > j), p.byte_at(z3.simplify(j - off)), v)
+        out.append(z3.simplify(v))
+    return Str(out, 0, acc)
+
+
+def parse_fmt_template(tpl):
+    """new-style fmt::Arguments template: [len < 0x80, len literal bytes]* | 0xC0 (next argument, default
+    options), terminated by 0.  Anything else is unsupported."""
+    i, out = 0, []
+    while i < len(tpl):
+        b = tpl[i]
+        if b == 0:
+            return out
+        if b == 0xC0:
+            out.append(('arg',))
+            i += 1
+        elif b < 0x80:
+            out.append(('lit', bytes(tpl[i + 1:i + 1 + b])))
+            i += 1 + b
+        else:
+            raise Unsupported('fmt template byte 0x%02x' % b)
+    return out
+
+
+def display_to_str(ip, v):
+    """generator: the Display output of a value as a byte-level/opaque string"""
+    v = deref_all(v)
+    if isinstance(v, (Str, StrTok)):
+        return v
+    if isinstance(v, Agg) and v.name:
+        c = ip.index.methods.get((v.name, 'Display', 'fmt'))
+        if c:
+            f = FormatterM()
+            cell = Cell(f, 'formatter')
+            yield from ip.call_fn(c[0], [Ref(Loc(Cell(v, 'display-self'))), Ref(Loc(cell), True)])
+            parts = cell.v.parts
+            if any(isinstance(x, StrTok) for x in parts):
+                # opaque strings: the rendering is an injective function of the parts' tokens
+                key = 'fmt_%s_%d' % (v.name, len(parts))
+                fn = z3.Function(key, *([z3.IntSort()] * (len([x for x in parts if isinstance(x, StrTok)]) + 1)))
+                ip.ctx.fmt_injective.add(key)
+                return StrTok(fn(*[x.tok for x in parts if isinstance(x, StrTok)]))
+            return concat_strs(parts)
+    if isinstance(v, S) and v.ty in INT_TYPES:
+        f = z3.Function('fmt_int', z3.IntSort(), z3.IntSort())
+        return StrTok(f(v.t))
+    raise Unsupported('Display of %r' % (v,))
+    yield
+
+
+def install_fmt(ctx):
+    M = ctx.models
+    ctx.fmt_injective = set()
+
+    @M.reg('Argument::new_display', 'Argument::new_debug')
+    def new_display(ip, pc, args, dt):
+        return FmtArg(args[0], pc['method'])
+
+    @M.reg('Arguments::new')
+    def arguments_new(ip, pc, args, dt):
+        tpl = deref_all(args[0])
+        if not isinstance(tpl, (bytes, bytearray)):
+            tpl = getattr(tpl, 'data', None)
+        if not isinstance(tpl, (bytes, bytearray)):
+            raise Unsupported('fmt template %r' % (args[0],))
+        arr = deref_all(args[1])
+        fargs = list(arr.elems)
+        parts = []
+        k = 0
+        for item in parse_fmt_template(tpl):
+            if item[0] == 'lit':
+                parts.append(Str(list(item[1]), 0, len(item[1])))
+            else:
+                parts.append(fargs[k])
+                k += 1
+        return FmtArgs(parts)
+
+    @M.reg('Formatter::write_fmt')
+    def write_fmt(ip, pc, args, dt):
+        floc = args[0].loc
+        f = read_loc(floc)
+        if not isinstance(f, FormatterM):
+            return ok(UNIT)      # formatting into an unobserved sink (Debug output, logging)
+        a = args[1]
+        for part in a.parts:
+            if isinstance(part, FmtArg):
+                s = yield from display_to_str(ip, part.value)
+                f.parts.append(s)
+            else:
+                f.parts.append(part)
+        return ok(UNIT)
+
+    @M.reg('Formatter::write_str')
+    def write_str(ip, pc, args, dt):
+        f = read_loc(args[0].loc)
+        if isinstance(f, FormatterM):
+            f.parts.append(as_str(args[1]))
+        return ok(UNIT)
+
+    prev = M.table.get('<ToString>::to_string')
+
+    @M.reg('<ToString>::to_string')
+    def to_string2(ip, pc, args, dt):
+        v = deref_all(args[0])
+        if isinstance(v, (Str, StrTok)):
+            return v.normalised()
+        s = yield from display_to_str(ip, v)
+        return s
